@@ -654,8 +654,9 @@ def main(check, check_file):
                 harness_errs.append((sc, res))
             return
         stats["evaluations"] += res.get("evaluations", 1)
-        for s in res.get("shapes", [res.get("shape")] if res.get("shape") is not None else []):
-            stats["shapes"].add(s if isinstance(s, str) else jdump(s))
+        if res.get("evaluations", 1) > 0:  # only cases that were actually evaluated count as distinct cases
+            for s in res.get("shapes", [res.get("shape")] if res.get("shape") is not None else []):
+                stats["shapes"].add(s if isinstance(s, str) else jdump(s))
         if res.get("digest"):
             stats["digests"].add(res["digest"])
         stats["steps"] += res.get("steps", 0)
